@@ -32,6 +32,20 @@ type c14Case struct {
 }
 
 func c14B(m map[string]any, k string) bool { b, _ := m[k].(bool); return b }
+
+// c14NL: the newline field of a CFG line in the vocabulary of RelayCfg.tla
+func c14NL(m map[string]any) string {
+	switch v, _ := m["newline"].(string); v {
+	case "!\n":
+		return "win"
+	case "\n":
+		return "plain"
+	case "":
+		return "absent"
+	default:
+		return "other"
+	}
+}
 func c14I(m map[string]any, k string) int {
 	f, _ := m[k].(float64)
 	return int(f)
@@ -55,19 +69,21 @@ func c14RunCase(c *c14Case) (map[string]any, error) {
 		r.tmuxMode = tmuxNormalMode
 	}
 	r.tmuxPaneWidth = int32(c14I(c.Relay, "width"))
-	r.trigger = &trzszTrigger{mode: 'R', version: &trzszVersion{1, 1, 8}, uniqueID: "1234567890100"}
+	r.trigger = &trzszTrigger{mode: 'R', version: &trzszVersion{1, 1, 8}, uniqueID: "1234567890100", winServer: c14B(c.Args, "winsrv")}
 	r.relayStatus.Store(kRelayHandshaking)
+	// the client frames its own lines with "!\n" only towards a Windows server (sendAction: remoteIsWindows);
+	// the newline it announces is the one it wants to be sent
 	nl := "\n"
-	if c14B(c.Act, "winnl") && !c14B(c.Act, "tunnel") {
+	if c14B(c.Args, "winsrv") {
 		nl = "!\n"
 	}
-	_ = nl
-	r.stdinBuffer.addBuffer([]byte("#ACT:" + encodeString(string(actJSON)) + "\n"))
+	r.stdinBuffer.addBuffer([]byte("#ACT:" + encodeString(string(actJSON)) + nl))
 
 	// the real server role behind the relay
 	var conn, peer net.Conn
 	serverW := &e2eFuncWriter{fn: func(b []byte) { r.stdoutBuffer.addBuffer(b) }}
 	st := newTransfer(serverW, nil, false, nil)
+	st.windowsProtocol = c14B(c.Args, "winsrv") // a server on Windows reads "!\n"-framed lines
 	if c14B(c.Act, "tunnel") {
 		conn, peer = net.Pipe()
 		st.tunnelConn.Store(&conn)
@@ -129,14 +145,14 @@ func c14RunCase(c *c14Case) (map[string]any, error) {
 			return map[string]any{"quiet": c14B(m, "quiet"), "overwrite": c14B(m, "overwrite"), "directory": c14B(m, "directory"),
 				"bufk": c14I(m, "bufsize") / 1024, "timeout": c14I(m, "timeout"), "compress": c14I(m, "compress"),
 				"binary": c14B(m, "binary"), "proto": c14I(m, "protocol"), "junk": c14B(m, "tmux_output_junk"),
-				"width": c14I(m, "tmux_pane_width")}
+				"width": c14I(m, "tmux_pane_width"), "newline": c14NL(m)}
 		}
 		obs["cfgOut"] = abs(co)
 		// what the server itself sent (its transferConfig mirrors the CFG it wrote)
 		sc := st.transferConfig
 		obs["cfgIn"] = map[string]any{"quiet": sc.Quiet, "overwrite": sc.Overwrite, "directory": sc.Directory,
 			"bufk": int(sc.MaxBufSize / 1024), "timeout": sc.Timeout, "compress": int(sc.CompressType), "binary": sc.Binary,
-			"proto": sc.Protocol, "junk": sc.TmuxOutputJunk, "width": int(sc.TmuxPaneColumns)}
+			"proto": sc.Protocol, "junk": sc.TmuxOutputJunk, "width": int(sc.TmuxPaneColumns), "newline": "absent"}
 	}
 	<-hsDone
 	obs["status"] = int(r.relayStatus.Load())
